@@ -71,9 +71,7 @@ func init() {
 		err := lo.Unmarshal(bytes.NewBuffer(unhx(a["b"])))
 		if err == nil {
 			for _, p := range lo.FilePath {
-				if p != nil {
-					p.Format()
-				}
+				p.Format() // every decoded node renders: a nil entry in the list is a crash for the caller
 			}
 		}
 		return errCls(err), ""
@@ -82,9 +80,7 @@ func init() {
 		ps, err := device.ParseDevicePath(bytes.NewReader(unhx(a["b"])))
 		if err == nil {
 			for _, p := range ps {
-				if p != nil {
-					p.Format()
-				}
+				p.Format()
 			}
 		}
 		return errCls(err), ""
